@@ -155,3 +155,14 @@ Definition agree2 (c : capcase2) : bool :=
    offered, the total is the saturating sum *)
 Definition ok2 (c : capcase2) : bool :=
   forallb (node_ok (k2_req c)) (k2_nodes c) && (k2_total c =? satsum (obs_caps2 c)).
+
+(* ---------- the plugin's own total, node names possibly repeated ---------- *)
+(* cpumem.GetNodesDeployCapacity fetches one record per DISTINCT name and walks
+   the fetched records: a name listed twice is offered once and counted once.
+   pt_caps: the capacities in the map the plugin returned; pt_total: its Total. *)
+Record ptcase := mkPtCase { pt_caps : list Z; pt_total : Z }.
+
+Definition agree_pt (c : ptcase) : bool :=
+  pt_total c =? fold_left plugin_total_step (pt_caps c) 0.
+(* the total is the (saturating) sum of the offered capacities *)
+Definition ok_pt (c : ptcase) : bool := pt_total c =? satsum (pt_caps c).
